@@ -19,18 +19,25 @@ struct fix_mem {
     char leakmsg[256];
 };
 
-static inline int fix_mem_init_full(struct fix_mem *fm, int pool_depth, int prepend, int append,
-                                    int align, int align_offset)
+/* udict_min / udict_extra: parameters of the inline dictionary manager (-1: its defaults); 1 / 0 makes every new attribute grow the storage */
+static inline int fix_mem_init_udict(struct fix_mem *fm, int pool_depth, int prepend, int append,
+                                     int align, int align_offset, int udict_min, int udict_extra)
 {
     memset(fm, 0, sizeof(*fm));
     fm->umem_mgr = umem_count_mgr_alloc();
     if (!fm->umem_mgr) return -1;
-    fm->udict_mgr = udict_inline_mgr_alloc(pool_depth, fm->umem_mgr, -1, -1);
+    fm->udict_mgr = udict_inline_mgr_alloc(pool_depth, fm->umem_mgr, udict_min, udict_extra);
     fm->uref_mgr = uref_std_mgr_alloc(pool_depth, fm->udict_mgr, 0);
     fm->block_mgr = ubuf_block_mem_mgr_alloc(pool_depth, pool_depth, fm->umem_mgr,
                                              prepend, append, align, align_offset);
     if (!fm->udict_mgr || !fm->uref_mgr || !fm->block_mgr) return -1;
     return 0;
+}
+
+static inline int fix_mem_init_full(struct fix_mem *fm, int pool_depth, int prepend, int append,
+                                    int align, int align_offset)
+{
+    return fix_mem_init_udict(fm, pool_depth, prepend, append, align, align_offset, -1, -1);
 }
 
 static inline int fix_mem_init(struct fix_mem *fm, int pool_depth, int prepend, int append)
